@@ -130,10 +130,7 @@ func wlWorkloads() map[string]*wlWorkload {
 			{"put-a", true, post("node/"+R+"/kv/key/a", "a0")}, {"put-b", true, post("node/"+R+"/kv/key/b", "b0")}, {"put-c", true, post("node/"+R+"/kv/key/c", "c0")},
 			commit(R), newver(R, A),
 			{"overwrite-a", true, post("node/"+A+"/kv/key/a", "a1")}, {"delete-b", true, del("node/" + A + "/kv/key/b")},
-			{"delete-then-put-c", false, func(*wlState) vsrv.Resp {
-				vsrv.Delete("node/" + A + "/kv/key/c")
-				return vsrv.PostS("node/"+A+"/kv/key/c", "c1")
-			}},
+			{"delete-c", true, del("node/" + A + "/kv/key/c")}, {"reput-c", true, post("node/"+A+"/kv/key/c", "c1")},
 			{"put-d", true, post("node/"+A+"/kv/key/d", "d1")},
 		}}
 
